@@ -1,6 +1,6 @@
 (* C15 - Variable byte integers are encoded minimally and decoded exactly.
    Statements only; proofs live in Proofs/. *)
-From MQ Require Import Model.Stream Proofs.BytesP Proofs.VbP Proofs.StreamP Model.WireIR Proofs.WireIRP Proofs.FillP gen.GenWire gen.SyncWire Model.WireDecIR Proofs.WireDecIRP gen.GenWireDec gen.SyncWireDec.
+From MQ Require Import Model.Stream Proofs.BytesP Proofs.VbP Proofs.StreamP Model.WireIR Proofs.WireIRP Proofs.FillP gen.GenWire gen.SyncWire Model.WireDecIR Proofs.WireDecIRP gen.GenWireDec gen.SyncWireDec Model.ReadIR Proofs.ReadIRP gen.GenRead gen.SyncRead.
 
 (* Every value 0 .. 268 435 455 is written in the unique minimal
    one-to-four-byte form: the output is well formed (seven bits per
@@ -92,7 +92,7 @@ Proof. vm_compute. repeat split. Qed.
 Theorem C15_encoder_is_the_source :
   g_wire_progs = wire_progs /\
   forall n id buf i,
-    exists b', run_fill prog_vbint_fill (env_of Vb (VN n) id) buf i = Some (b', List.length (enc_vb n)) /\
+    exists b', run_fill prog_vbint_fill (wenv_of Vb (VN n) id) buf i = Some (b', List.length (enc_vb n)) /\
                List.length b' = List.length buf /\
                ((i + List.length (enc_vb n) <= List.length buf)%nat -> b' = put buf i (enc_vb n)).
 Proof.
@@ -110,3 +110,14 @@ Theorem C15_decoder_is_the_source :
   forall old d, run_wdec dprog_vbint old d = lift WVn (dec_vb d).
 Proof. split; [exact sync_wire_dec_progs|exact run_vb_dec]. Qed.
 Print Assumptions C15_decoder_is_the_source.
+
+(* ... and vb_stream, the streaming decoder, is vbint.ReadFrom as it stands:
+   its regenerated statement list (one-byte buffer, io.ReadFull per byte, the
+   same accumulation, "size exceeded" at the fifth byte, *v assigned only after
+   the loop), run on any reader script, gives vb_stream's value or error, the
+   same reader afterwards, the same sizes requested and the same bytes taken. *)
+Theorem C15_stream_decoder_is_the_source :
+  g_vb_read_prog = vb_read_prog /\
+  forall s, drop_count (run_vbread vb_read_prog s) = vb_stream s.
+Proof. split; [exact sync_vb_read_prog|exact vb_read_is_prog]. Qed.
+Print Assumptions C15_stream_decoder_is_the_source.
